@@ -378,13 +378,23 @@ mod verif_c15 {
                 i += 1;
             }
             let canonical = all_digits && (digits[0] != b'0' || (digits.len() == 1 && n == 1));
+            // the number a canonical spelling denotes (at most three characters: no overflow)
+            let mut denoted: i64 = 0;
+            let mut j = 0;
+            while j < digits.len() {
+                denoted = denoted * 10 + (digits[j].wrapping_sub(b'0') as i64);
+                j += 1;
+            }
+            if n > 0 && d[0] == b'-' {
+                denoted = -denoted;
+            }
             match SafeLong::from_str(s) {
                 Ok(v) => {
-                    // whatever is accepted is in range and is the number the text denotes
+                    // whatever is accepted is in range; a canonical spelling keeps its value
                     assert!(wf(&v));
-                    assert!(s.parse::<i64>().ok() == Some(v.0));
+                    assert!(!canonical || v.0 == denoted);
                 }
-                // every canonical spelling of an in-range integer is accepted (other spellings such as "+1" or "01"
+                // every canonical spelling of an in-range integer is accepted (other spellings such as "+1", "01" or " 1"
                 // are the parser's choice and not part of the property)
                 Err(_) => assert!(!canonical),
             }
